@@ -210,8 +210,9 @@ type uniProject struct {
 // map type literal on the target side that spells unsafe.Pointer makes goverter derive a variable name from the type text
 // ("pUnsafe.Pointer", "unsafe.PointerList", "mapStringUnsafe.Pointer"); the run ends with a formatting error plus a dump
 // of the file that names neither the converter nor the method. They are not generated.
+// (Since the repair of D40 — identifiers derived from unsafe.Pointer — they ARE generated: nothing is left out.)
 func uniLeftOut(tgt string) bool {
-	return strings.Contains(tgt, "unsafe.Pointer") && tgt != "unsafe.Pointer"
+	return false
 }
 
 func (p *uniProject) add(convLines, methLines []string, src, tgt string, withErr bool) {
